@@ -274,7 +274,15 @@ class Ctx:
         for (t, pol) in cfg.guards_of(self.node(fn, astnode)):
             if t.kind == 'test':
                 if nest_only is not None and id(t.ast) not in nest_only:
-                    continue
+                    # an earlier test that was passed counts only if its other branch is not
+                    # itself a refusal (`if A: return x` + `raise` keeps "A is false";
+                    # `if A: raise` + `if B: raise` does not)
+                    stt = getattr(t, 'stmt', None)
+                    other = None
+                    if isinstance(stt, ast.If):
+                        other = stt.body if pol is False else stt.orelse
+                    if not other or isinstance(other[-1], ast.Raise):
+                        continue
                 term = ex.term(t.ast, t)
                 seen = set()
                 todo = [(term, pol)]
